@@ -9,11 +9,11 @@ from harness.common import *  # noqa
 ABSENT = 'b' * 64
 
 
-def _backup(what, s0, s1, s2, s3, s4, wal, ta, tp, tc, td, cl, again, same=False):
+def _backup(what, s0, s1, s2, s3, s4, wal, ta, tp, tc, td, cl, again, same=False, target=10**9):
     """live container: obj0, obj2 loose, obj1 packed.  Another client adds obj3 loose (at ta), packs everything (tp,
     clean_loose_per_pack=cl), cleans (tc), writes obj4 directly to a pack (td).  ``wal``: a further client keeps a
     connection to the index open for the whole time.  ``again``: a second, incremental backup follows (no events)."""
-    w = make_world(10**9, config_file=True)
+    w = make_world(target, config_file=True)
     try:
         w.set_pack(0, [('junk', 0, 1), ('obj', 1, s1)])
         w.put_loose(0, s0)
@@ -323,6 +323,46 @@ def backup_sched_wal_clean_a8_d11(s0: int, tp: int, tc: int) -> bool:
     post: _
     """
     return _backup('check', s0, 7, 5, 3, 9, True, 8, tp, tc, 11, True, False)
+
+
+def backup_small_wal_keep(s0: int, tp: int, tc: int, td: int) -> bool:
+    """
+    As backup_sched_*, with pack_size_target = 10: every object the concurrent client packs opens a NEW pack file (pack
+    files that did not exist when the backup started).
+    pre: 1 <= s0 <= 70000 and 5 <= tp <= 11 and tp <= tc <= 11 and 5 <= td <= 11
+    post: _
+    """
+    return _backup('check', s0, 7, 5, 3, 9, True, 5, tp, tc, td, False, False, False, 10)
+
+
+def backup_small_wal_clean(s0: int, tp: int, tc: int, td: int) -> bool:
+    """
+    As backup_sched_*, with pack_size_target = 10: every object the concurrent client packs opens a NEW pack file (pack
+    files that did not exist when the backup started).
+    pre: 1 <= s0 <= 70000 and 5 <= tp <= 11 and tp <= tc <= 11 and 5 <= td <= 11
+    post: _
+    """
+    return _backup('check', s0, 7, 5, 3, 9, True, 5, tp, tc, td, True, False, False, 10)
+
+
+def backup_small_nowal_keep(s0: int, tp: int, tc: int, td: int) -> bool:
+    """
+    As backup_sched_*, with pack_size_target = 10: every object the concurrent client packs opens a NEW pack file (pack
+    files that did not exist when the backup started).
+    pre: 1 <= s0 <= 70000 and 5 <= tp <= 11 and tp <= tc <= 11 and 5 <= td <= 11
+    post: _
+    """
+    return _backup('check', s0, 7, 5, 3, 9, False, 5, tp, tc, td, False, False, False, 10)
+
+
+def backup_small_nowal_clean(s0: int, tp: int, tc: int, td: int) -> bool:
+    """
+    As backup_sched_*, with pack_size_target = 10: every object the concurrent client packs opens a NEW pack file (pack
+    files that did not exist when the backup started).
+    pre: 1 <= s0 <= 70000 and 5 <= tp <= 11 and tp <= tc <= 11 and 5 <= td <= 11
+    post: _
+    """
+    return _backup('check', s0, 7, 5, 3, 9, False, 5, tp, tc, td, True, False, False, 10)
 
 
 def backup_again(s0: int, wal: bool, tp: int, tc: int, cl: bool) -> bool:
